@@ -292,3 +292,113 @@
     //@ERR
     //@PAYLOAD_W
     fn c02_xz_finish_n8192() { xz_finish_layout(8192, 1, CheckType::None, 2); }
+
+    // ---------------------------------------------------------------- block protocol with the whole chain by contract
+    /// payload-layer contract for one block's filter chain + LZMA2 writer, as a `FinishableWriter`: accepts every byte it
+    /// is given (ghost count per block), on `finish` emits PL_EMIT bytes to the stream. Installing it instead of the
+    /// real chain keeps DeltaWriter/BCJWriter/LZMA2Writer out of the `dyn FinishableWriter` dispatch.
+    struct PayloadW<W: Write> { out: SharedWriter<W> }
+    impl<W: Write> Write for PayloadW<W> {
+        fn write(&mut self, buf: &[u8]) -> Result<usize> {
+            unsafe { crate::vk::PL_CUR_IN += buf.len() as u64; }
+            Ok(buf.len())
+        }
+        fn flush(&mut self) -> Result<()> { Ok(()) }
+    }
+    impl<W: Write> FinishableWriter for PayloadW<W> {
+        fn finish(mut self: Box<Self>) -> Result<()> {
+            unsafe {
+                assert!(crate::vk::PL_N < 4);
+                crate::vk::PL_BLOCKS[crate::vk::PL_N] = crate::vk::PL_CUR_IN;
+                crate::vk::PL_N += 1;
+                crate::vk::PL_CUR_IN = 0;
+                let data = [0xAAu8; 4];
+                self.out.write_all(&data[..crate::vk::PL_EMIT])
+            }
+        }
+    }
+    /// contract stub of XZWriter::prepare_next_block (the real body is C03.xz.unpadded): block start recorded, block
+    /// header written by the real write_block_header, payload chain installed, byte count reset.
+    fn prepare_stub<'w, W: Write + 'w>(s: &mut XZWriter<'w, W>) -> Result<()> {
+        s.writer = Box::new(SharedWriter { inner: Rc::clone(&s.original_writer), compressed_bytes_written: Rc::clone(&s.compressed_bytes_written) });
+        s.current_block_start_pos = s.compressed_bytes_written.get();
+        s.write_block_header()?;
+        s.writer = Box::new(PayloadW { out: SharedWriter { inner: Rc::clone(&s.original_writer), compressed_bytes_written: Rc::clone(&s.compressed_bytes_written) } });
+        s.block_uncompressed_size = 0;
+        Ok(())
+    }
+
+    /// C02.xz.index / D10: finishing a writer that never received data produces the empty stream of the xz specification:
+    /// stream header | index with zero records | stream footer (32 bytes), which the crate's own reader accepts as empty.
+    #[kani::proof]
+    #[kani::unwind(14)]
+    //@ERR
+    fn c02_xz_finish_empty_stream() {
+        let w = XZWriter::new(vk::Sink::<64>::new(), opts(CheckType::Crc64, 4096)).unwrap();
+        let sink = match w.finish() { Ok(s) => s, Err(_) => { assert!(false); return; } };
+        assert!(sink.len == 32);
+        let b = &sink.buf;
+        assert!(b[12] == 0 && b[13] == 0 && b[14] == 0 && b[15] == 0);     // index indicator, 0 records, padding
+        assert!(b[16..20] == CRC32.checksum(&b[12..16]).to_le_bytes());
+        let f = rd_stream_footer(&sink.buf[20..32]);
+        assert!(matches!(f, Ok((1, fl)) if fl == [0, CheckType::Crc64 as u8]));
+    }
+
+    /// C18.xz / C02.xz.acct (inductive step of XZWriter::write, chain by contract): from any state inside a block that
+    /// already holds u <= limit bytes, one write of n bytes (any n <= 9000): every block stays within
+    /// max(block_size, dict_size) = 4096, the blocks partition the bytes in order (none empty), one index record per
+    /// finished block with its byte count and unpadded size = header + compressed + check.
+    fn xz_write_step2(emit: usize, limited: bool) {
+        use crate::vk::{pl_reset, PL_BLOCKS, PL_CUR_IN, PL_N};
+        pl_reset(emit);
+        let mut o = opts(CheckType::None, 4096);
+        if limited { o.block_size = core::num::NonZeroU64::new(100); }
+        let mut w = XZWriter::new(vk::Sink::<128>::new(), o).unwrap();
+        if limited { assert!(w.options.block_size.unwrap().get() == 4096); }
+        assert!(w.write_stream_header().is_ok());
+        assert!(w.prepare_next_block().is_ok());
+        let u: u64 = vk::any();
+        vk::assume(u >= 1 && u <= 4096);
+        w.block_uncompressed_size = u;
+        w.total_uncompressed_pos = u;
+        unsafe { PL_CUR_IN = u; }
+        static DATA: [u8; 9000] = [0u8; 9000];
+        let n: usize = vk::any();
+        vk::assume(n >= 1 && n <= 9000);
+        let r = w.write(&DATA[..n]);
+        assert!(matches!(r, Ok(k) if k == n));
+        assert!(w.total_uncompressed_pos == u + n as u64);
+        let nfin = unsafe { PL_N };
+        let cur = unsafe { PL_CUR_IN };
+        assert!(w.block_uncompressed_size == cur);
+        assert!(w.index_records.len() == nfin);
+        let mut sum = cur;
+        let mut i = 0;
+        while i < 4 {
+            if i < nfin {
+                let b = unsafe { PL_BLOCKS[i] };
+                assert!(b >= 1);
+                if limited { assert!(b <= 4096); }
+                assert!(w.index_records[i].uncompressed_size == b);
+                assert!(w.index_records[i].unpadded_size == (12 + emit) as u64);
+                sum += b;
+            }
+            i += 1;
+        }
+        assert!(cur >= 1);
+        if limited { assert!(cur <= 4096); } else { assert!(nfin == 0); }
+        assert!(sum == u + n as u64);
+        crate::vcover!(nfin == 2);
+        crate::vcover!(nfin == 0);
+        core::mem::forget(w);
+    }
+    #[kani::proof]
+    #[kani::unwind(8)]
+    //@ERR
+    #[kani::stub(XZWriter::prepare_next_block, prepare_stub)]
+    fn c18_xz_write_step2_e1_lim() { xz_write_step2(1, true); }
+    #[kani::proof]
+    #[kani::unwind(8)]
+    //@ERR
+    #[kani::stub(XZWriter::prepare_next_block, prepare_stub)]
+    fn c18_xz_write_step2_e3_unl() { xz_write_step2(3, false); }
